@@ -75,9 +75,14 @@ def trace_to_root(core, g, operand, root, _depth=0, _helpers=None):
             continue
         if g.kind == 'Closure' and o.kind == 'arg' and o.n == 1 and o.suffix and o.suffix[0].startswith('.^'):
             name = o.suffix[0][2:]
-            parent = parent_of(core, g)
+            # the bodies that construct this closure: its lexical parent, or — when the parent was a helper spliced into its callers — the
+            # callers themselves; only those that belong to `root` matter
+            family = [root] + core.closures_of(root)
+            parents = [h for h in family if any(s_['rv']['k'] == 'agg' and s_['rv'].get('def') == g.path for _, _, s_ in h.stmts('assign'))]
+            if not parents and parent_of(core, g) is not None:
+                parents = [parent_of(core, g)]
             found = False
-            if parent is not None:
+            for parent in parents:
                 for bb, i, s in parent.stmts('assign'):
                     rv = s['rv']
                     if rv['k'] == 'agg' and rv.get('def') == g.path and name in (rv.get('fields') or []):
